@@ -58,6 +58,11 @@ import encodings  # noqa: E402,F401
 import webencodings  # noqa: E402,F401
 
 
+from . import coldstate  # noqa: E402
+
+coldstate.snapshot()   # import-time contents of every process-wide container of the library
+
+
 def verif_seed() -> int:
     v = os.environ.get("VERIF_SEED", "")
     try:
